@@ -5,6 +5,7 @@ package mc
 import (
 	"fmt"
 	"os"
+	"strings"
 	"time"
 )
 
@@ -34,7 +35,25 @@ func Run(prop, tier string) int {
 					vc.Deadline = cfg.Deadline / 2 / time.Duration(len(variants)-1)
 				}
 			}
-			sum = MergeSummaries(sum, RunMaster(vc, []string{"worker", prop, tier, v}))
+			one := RunMaster(vc, []string{"worker", prop, tier, v})
+			if os.Getenv("VERIF_LINEAR") == "" {
+				for _, he := range one.HarnessErrs {
+					if strings.HasPrefix(he, "explorer validation: linear run of") && strings.Contains(he, "gives app hash") {
+						// the rollback shortcut is unsound on THIS tree: the application keeps state outside the
+						// committed store (or is nondeterministic). Explore again without the shortcut.
+						fmt.Println("NOTE: rollback exploration disagreed with linear re-execution (" + he + "); the application keeps state outside the committed store — exploring again WITHOUT the rollback shortcut (every node rebuilt by restart at the root + re-execution)")
+						os.Setenv("VERIF_LINEAR", "1")
+						vc2 := WConfig(prop, tier)
+						vc2.Fixture.Variant = v
+						vc2.Deadline = 3 * vc.Deadline // the fallback is several times slower per node; it only ever runs on a tree that broke the shortcut
+						vc2.Assumptions = append(vc2.Assumptions, "LINEAR FALLBACK: no store-rollback shortcut (it disagreed with linear re-execution on this tree); no state merging")
+						one = RunMaster(vc2, []string{"worker", prop, tier, v})
+						cfg.Assumptions = vc2.Assumptions
+						break
+					}
+				}
+			}
+			sum = MergeSummaries(sum, one)
 		}
 		if prop == "C10" {
 			n, fs := c10kAll()
